@@ -256,7 +256,19 @@ func getSignedAttributes(req *signature.SignRequest, algorithm string) (map[stri
 		return nil, fmt.Errorf("unexpected error occurred while creating protected headers, Error: %s", err.Error())
 	}
 
-	return mergeMaps(m, extAttrs)
+	signedAttrs, err := mergeMaps(m, extAttrs)
+	if err != nil {
+		return nil, err
+	}
+	// A header defined by the specification that is not set by this request
+	// (e.g. an expiry that was not requested, or the other signing scheme's
+	// time header) must not be smuggled in as an extended attribute.
+	for key := range extAttrs {
+		if contains(headerKeys, key) {
+			return nil, &signature.InvalidSignRequestError{Msg: fmt.Sprintf("%q is a reserved header and cannot be used as an extended attribute key", key)}
+		}
+	}
+	return signedAttrs, nil
 }
 
 func convertToMap(i interface{}) (map[string]interface{}, error) {
